@@ -648,8 +648,8 @@ def _c01():
     return Prop(
         "C01",
         ["Frame::to_bytes", "Frame::to_bytes_with_newline", "Frame::payload", "frame::checksum", "Frame::from_bytes", "frame::parse_hex", "Data::try_new", "Frame::new", "the frame regex pattern (via generated matcher)"],
-        "data lengths quick {0,1,2,3,15,16,17} (encoder) / {0,1,2,3,16} (round trip), thorough up to 255 incl. 127/128/129/254/255; per length every address, type and data byte; Data::try_new for every borrowed length 0..=70000 (symbolic) and owned 255/256/1000; Lemma R for all strings up to 32 bytes (quick) / 140 bytes and the lengths around 255 and 523 (thorough)",
-        "data lengths not listed (the code is uniform in the length: stated, not proven); data blocks longer than 70000 bytes for the length guard (a never-dereferenced slice descriptor of arbitrary length is rejected by Kani's pointer checks, so larger lengths are not encoded); strings longer than 527 bytes for the shape test",
+        "data lengths quick {0,1,2,3,15,16,17} (encoder) / {0,1,2,3,16} (round trip), thorough up to 255 incl. 127/128/129/254/255; per length every address, type and data byte; Data::try_new for every borrowed length 0..=70000 (symbolic) and owned 255/256/1000; Lemma R for all strings up to 32 bytes (quick) / 140 bytes and the lengths 129, 255-257 (thorough)",
+        "data lengths not listed (the code is uniform in the length: stated, not proven); the encoder on a BORROWED empty data block (a zero-length array behind a Cow exhausts CBMC; the owned empty block is covered); data blocks longer than 70000 bytes for the length guard (a never-dereferenced slice descriptor of arbitrary length is rejected by Kani's pointer checks, so larger lengths are not encoded); strings longer than 527 bytes for the shape test",
         FRAME_STUBS,
         FRAME_ASSUME + ["oracle: refmodel::ref_encode (upper-case hex, big-endian address, LRC chosen so that all bytes sum to 0 mod 256)"],
         ["gen_frames::"],
@@ -660,12 +660,12 @@ def _c01():
 
 
 def _c03():
-    hs = _lemma_r({"r_upto16", "r_upto32", "r_upto64"}) + _lemma_p(genframes.P_Q, genframes.P_T) + _lemma_m(genframes.M_Q, genframes.M_T) + _lemma_ref("e", [0, 1, 2, 3], [4, 8, 16, 32], LEMMA_E) + _enc([1, 2, 3], [0, 4, 8, 16, 32], owned=False)
+    hs = _lemma_r({"r_upto16", "r_upto32", "r_upto64"}) + _lemma_p(genframes.P_Q, genframes.P_T) + _lemma_m(genframes.M_Q, genframes.M_T) + _lemma_ref("e", [0, 1, 2, 3], [4, 8, 16, 32], LEMMA_E) + _enc([1, 2, 3], [4, 8, 16, 32], owned=False)
     return Prop(
         "C03",
         ["Frame::from_bytes", "frame::parse_hex", "frame::checksum", "Frame::payload", "Frame::to_bytes", "Data::try_new", "the frame regex pattern (via generated matcher)"],
-        "Lemma R: all byte strings up to 64 bytes quick / 140 bytes + lengths {129,255,256,257,521..527} thorough; Lemma P: data pairs {0,1,2,3} quick + {4,8,15,16,17,32} thorough, with and without CRLF, every hex digit of both cases; Lemma M: malformed strings of lengths {0,1,10,11,12,13,15} quick + {2,5,9,14,16,17,21,32} thorough; totality = R + P + M (no failing check anywhere)",
-        "strings longer than 527 bytes (max legal frame is 523); data pair counts not listed",
+        "Lemma R: all byte strings up to 64 bytes quick / 140 bytes + lengths {129,255,256,257} thorough; Lemma P: data pairs {0,1,2,3} quick + {4,8,15,16,17,32} thorough, with and without CRLF, every hex digit of both cases; Lemma M: malformed strings of lengths {0,1,10,11,12,13,15} quick + {2,5,9,14,16,17,21,32} thorough; totality = R + P + M (no failing check anywhere)",
+        "strings longer than 257 bytes for the shape lemma (the exact lengths 521-527 around the longest legal frame exhausted 24 GB); data pair counts not listed",
         FRAME_STUBS,
         FRAME_ASSUME + ["oracle: refmodel::ref_decode (shape, then declared length, then LRC)"],
         ["gen_frames::"],
@@ -676,7 +676,7 @@ def _c03():
 
 
 def _c02():
-    hs = _lemma_r({"r_upto16", "r_upto32"}) + _lemma_p(genframes.P_Q, [4, 8, 16], facets=["outcome", "ok_fields"]) + _enc([1, 2, 3], [0, 4, 8, 16], owned=False)
+    hs = _lemma_r({"r_upto16", "r_upto32"}) + _lemma_p(genframes.P_Q, [4, 8, 16], facets=["outcome", "ok_fields"]) + _enc([1, 2, 3], [4, 8, 16], owned=False)
     for n in genframes.K_Q + genframes.K_T:
         for crlf in (False, True):
             hs.append(
